@@ -4,6 +4,7 @@ CONSTANTS
   Types = {"Small", "Big", "STM"}
   Vals = {1, 2}
   Fuses = {0, 1}
+  AFuses = {0, 1}
   MCCastForms <- FewCastForms
   CountOps = FALSE
 VIEW absvars
